@@ -62,6 +62,8 @@ struct vsim_engine {
   std::vector<int> rep_fd;
   int rep_timeout_ms = 30000;
   long rep_msgs_sent = 0, rep_msgs_recv = 0, rep_barriers = 0, rep_errors = 0;
+  long rep_in_parallel = 0;                    // (C14) replica calls made from inside the parallel loop over the biases
+  bool in_biases_loop = false;
   std::vector<int> assign;                     // (C12) explicit thread of the k-th executed item (default: k mod nthreads)
   std::vector<std::pair<std::string, double> > script_forces;  // (C12) scripted-force task: force added to named scalar variables
   void resize(int n) {
@@ -282,6 +284,7 @@ public:
   int replica_comm_send(char *msg_data, int msg_len, int dest_rep) override
   {
     if (!rep_on()) return COLVARS_NOT_IMPLEMENTED;
+    if (eng->in_biases_loop) eng->rep_in_parallel++;
     if (!rep_send_frame(dest_rep, 'D', msg_data, msg_len)) { eng->rep_errors++; return 0; }
     eng->rep_msgs_sent++;
     return msg_len;
@@ -289,6 +292,7 @@ public:
   int replica_comm_recv(char *msg_data, int buf_len, int src_rep) override
   {
     if (!rep_on()) return COLVARS_NOT_IMPLEMENTED;
+    if (eng->in_biases_loop) eng->rep_in_parallel++;
     int r = rep_recv_frame(src_rep, 'D', msg_data, buf_len);
     if (r < 0) { eng->rep_errors++; return 0; }
     eng->rep_msgs_recv++;
@@ -297,6 +301,7 @@ public:
   void replica_comm_barrier() override
   {
     if (!rep_on()) return;
+    if (eng->in_biases_loop) eng->rep_in_parallel++;
     eng->rep_barriers++;
     char c = 0;
     if (eng->rep_index == 0) {
@@ -405,12 +410,14 @@ public:
   int smp_biases_loop() override
   {
     record_bias_items(false);
+    struct in_loop { vsim_engine *e; in_loop(vsim_engine *e_) : e(e_) { e->in_biases_loop = true; } ~in_loop() { e->in_biases_loop = false; } } guard(eng);
     if (eng->smp == "omp") return colvarproxy_smp::smp_biases_loop();
     return biases_schedule(false);
   }
   int smp_biases_script_loop() override
   {
     record_bias_items(true);
+    struct in_loop { vsim_engine *e; in_loop(vsim_engine *e_) : e(e_) { e->in_biases_loop = true; } ~in_loop() { e->in_biases_loop = false; } } guard(eng);
     if (eng->smp == "omp") return colvarproxy_smp::smp_biases_script_loop();
     return biases_schedule(true);
   }
@@ -715,7 +722,7 @@ struct vsim_session {
     else if (cmd == "reptimeout") { eng.rep_timeout_ms = atoi(a[0].c_str()); }
     else if (cmd == "repstat") {
       o << "REPSTAT index=" << eng.rep_index << " num=" << eng.rep_num << " sent=" << eng.rep_msgs_sent
-        << " recv=" << eng.rep_msgs_recv << " barriers=" << eng.rep_barriers << " errors=" << eng.rep_errors << "\n";
+        << " recv=" << eng.rep_msgs_recv << " barriers=" << eng.rep_barriers << " errors=" << eng.rep_errors << " parallel=" << eng.rep_in_parallel << "\n";
     }
     else if (cmd == "sync") { o << "SYNC" << (a.size() ? " " + a[0] : std::string("")) << "\n"; o.flush(); }
     else if (cmd == "perm") { eng.perm.clear(); for (auto &s : a) eng.perm.push_back(atoi(s.c_str())); }
